@@ -330,7 +330,7 @@ Definition vi_motionln (b : buf) (rows top : Z) (has : bool) (cnt : Z) (k : mkey
   | Kplus | Kj => fix0 (Z.min (row + cnt) (len - 1))
   | Kminus | Kk => fix0 (Z.max (row - cnt) 0)
   | Kunder => fix0 (Z.min (row + cnt - 1) (len - 1))
-  | KG => fix0 (if has then cnt - 1 else len - 1)
+  | KG => fix0 (if has then Z.min (cnt - 1) (len - 1) else len - 1)
   | KH => fix0 (Z.min (top + cnt - 1) (len - 1))
   | KL => fix0 (Z.min (top + rows - 1 - cnt + 1) (len - 1))
   | KM => fix0 (Z.min (top + rows / 2) (len - 1))
